@@ -2,7 +2,7 @@
    harness/cmd/wiremsgpack ran against the real Encoder/Decoder and report the ids
    that differ. *)
 From Coq Require Import List NArith ZArith Arith Bool.
-From Verif Require Import Base.Outcome Wire.Item Gen.Consts Wire.Msgpack.
+From Verif Require Import Base.Outcome Wire.Item Gen.Consts Wire.Msgpack Wire.MsgpackVU.
 Import ListNotations.
 Local Open Scope N_scope.
 
@@ -12,7 +12,8 @@ Definition irep (x : item) (n : N) : list item := repeat x (N.to_nat n).
 
 Record case := mkcase {
   cid : N;
-  ckind : N;            (* 0 encode, 1 decode into interface{}, 2 nextValueBytes via Decode(&Raw), 3 via an unknown struct field *)
+  ckind : N;            (* 0 encode, 1 decode into interface{}, 2 nextValueBytes via Decode(&Raw), 3 via an unknown struct field,
+                           4 decode into interface{} with ValidateUnicode = true (Wire/MsgpackVU.v) *)
   ceo : eopts;
   cdo : dopts;
   citem : item;         (* encode: the item handed to the Encoder; decode: dump of the decoded value *)
@@ -109,8 +110,8 @@ Fixpoint item_eqv (fuel : nat) (a b : item) : bool :=
 Definition check_case (c : case) : bool :=
   if ckind c =? 0 then
     eqbl (enc (ceo c) (citem c)) (cbytes c)
-  else if ckind c =? 1 then
-    match dec_naked (cdo c) (dec_fuel (cbytes c)) (cbytes c) with
+  else if (ckind c =? 1) || (ckind c =? 4) then
+    match (if ckind c =? 4 then dec_naked_vu true (cdo c) else dec_naked (cdo c)) (dec_fuel (cbytes c)) (cbytes c) with
     | Ok (i, rest) =>
         (o_class c =? 0) && (numread (cbytes c) rest =? o_read c)
         && item_eqv (S (size i)) (go_map_view i) (citem c)
